@@ -584,4 +584,331 @@ theorem afterTopK_spec_fix {o : Ops α} (h : OrdLaws o) (hz : AddZeroLaw o) (hb 
   rw [hy1v] at this
   simpa using this
 
+/-! ### the heap branch of topK only moves tokens around -/
+
+theorem swapIfInBounds_perm (h : Array (Tok α)) (i j : Nat) : (h.swapIfInBounds i j).Perm h := by
+  rw [Array.swapIfInBounds_def]
+  split
+  · split
+    · exact Array.swap_perm _ _
+    · exact Array.Perm.refl _
+  · exact Array.Perm.refl _
+
+theorem hdown_perm (o : Ops α) (n : Nat) : ∀ (fuel : Nat) (h : Array (Tok α)) (i : Nat),
+    (hdown o n fuel h i).Perm h := by
+  intro fuel
+  induction fuel with
+  | zero => intro h i; exact Array.Perm.refl _
+  | succ fuel ih =>
+    intro h i
+    unfold hdown
+    simp only
+    split
+    · exact Array.Perm.refl _
+    · split <;> split <;>
+        first | exact Array.Perm.refl _ | exact (ih _ _).trans (swapIfInBounds_perm _ _ _)
+
+theorem hup_perm (o : Ops α) : ∀ (fuel : Nat) (h : Array (Tok α)) (j : Nat),
+    (hup o fuel h j).Perm h := by
+  intro fuel
+  induction fuel with
+  | zero => intro h j; exact Array.Perm.refl _
+  | succ fuel ih =>
+    intro h j
+    unfold hup
+    simp only
+    split
+    · exact Array.Perm.refl _
+    · exact (ih _ _).trans (swapIfInBounds_perm _ _ _)
+
+theorem hinit_perm (o : Ops α) (h : Array (Tok α)) : (hinit o h).Perm h := by
+  unfold hinit
+  simp only
+  generalize (List.range (h.size / 2)).reverse = l
+  generalize h.size = n
+  have : ∀ (l : List Nat) (h0 : Array (Tok α)), (l.foldl (fun h i => hdown o n n h i) h0).Perm h0 := by
+    intro l
+    induction l with
+    | nil => intro h0; exact Array.Perm.refl _
+    | cons i l ih => intro h0; exact (ih _).trans (hdown_perm o n n h0 i)
+  exact this l h
+
+/-- `heap.Pop` returns an element of the heap and leaves a heap of the remaining size whose
+    elements all come from the old one -/
+theorem hpop_spec (o : Ops α) (h : Array (Tok α)) (hs : 0 < h.size) :
+    (hpop o h).1 ∈ h ∧ (hpop o h).2.size = h.size - 1 ∧ ∀ y ∈ (hpop o h).2, y ∈ h := by
+  unfold hpop
+  simp only
+  generalize hh2 : hdown o (h.size - 1) (h.size - 1) (h.swapIfInBounds 0 (h.size - 1)) 0 = h2
+  have hp : h2.Perm h := by
+    rw [← hh2]; exact (hdown_perm _ _ _ _ _).trans (swapIfInBounds_perm _ _ _)
+  have hsz : h2.size = h.size := hp.size_eq
+  have hlt : h.size - 1 < h2.size := by omega
+  refine ⟨?_, by simp [hsz], ?_⟩
+  · have : hget o h2 (h.size - 1) = h2[h.size - 1] := by
+      simp [hget, Array.getElem?_eq_getElem hlt]
+    rw [this]
+    exact hp.mem_iff.1 (Array.getElem_mem hlt)
+  · intro y hy
+    obtain ⟨i, hi, rfl⟩ := Array.mem_iff_getElem.1 hy
+    rw [Array.getElem_pop]
+    exact hp.mem_iff.1 (Array.getElem_mem _)
+
+theorem hpush_spec (o : Ops α) (h : Array (Tok α)) (x : Tok α) :
+    (hpush o h x).size = h.size + 1 ∧ ∀ y ∈ hpush o h x, y ∈ h ∨ y = x := by
+  unfold hpush
+  simp only
+  have hp := hup_perm o (h.push x).size (h.push x) ((h.push x).size - 1)
+  refine ⟨by rw [hp.size_eq]; simp, ?_⟩
+  intro y hy
+  have := hp.mem_iff.1 hy
+  simpa [Array.mem_push] using this
+
+theorem hpopAll_mem (o : Ops α) : ∀ (n : Nat) (h : Array (Tok α)), h.size = n →
+    ∀ y ∈ hpopAll o n h, y ∈ h := by
+  intro n
+  induction n with
+  | zero => intro h _ y hy; simp [hpopAll] at hy
+  | succ n ih =>
+    intro h hs y hy
+    obtain ⟨h1, h2, h3⟩ := hpop_spec o h (by omega)
+    simp only [hpopAll, List.mem_cons] at hy
+    rcases hy with rfl | hy
+    · exact h1
+    · exact h3 y (ih _ (by omega) y hy)
+
+theorem hpopAll_length (o : Ops α) (n : Nat) (h : Array (Tok α)) : (hpopAll o n h).length = n := by
+  induction n generalizing h with
+  | zero => rfl
+  | succ n ih => simp [hpopAll, ih]
+
+/-- **the heap branch returns k tokens of its input** -/
+theorem topKHeap_mem (o : Ops α) (k : Nat) (ts : List (Tok α)) (hk0 : 0 < k) (hk : k ≤ ts.length) :
+    (topKHeap o k ts).length = k ∧ ∀ y ∈ topKHeap o k ts, y ∈ ts := by
+  unfold topKHeap
+  simp only
+  -- invariant of the scan over ts.drop k
+  have inv : ∀ (rest : List (Tok α)) (h : Array (Tok α)), h.size = k → (∀ y ∈ h, y ∈ ts) →
+      (∀ y ∈ rest, y ∈ ts) →
+      let h' := rest.foldl
+        (fun h t => if o.lt (hget o h 0).val t.val then hpush o (hpop o h).2 t else h) h
+      h'.size = k ∧ ∀ y ∈ h', y ∈ ts := by
+    intro rest
+    induction rest with
+    | nil => intro h hs hm _; exact ⟨hs, hm⟩
+    | cons t rest ih =>
+      intro h hs hm hr
+      simp only [List.foldl_cons]
+      apply ih
+      · split
+        · obtain ⟨_, p2, _⟩ := hpop_spec o h (by omega)
+          rw [(hpush_spec o _ t).1, p2]; omega
+        · exact hs
+      · split
+        · intro y hy
+          obtain ⟨_, _, p3⟩ := hpop_spec o h (by omega)
+          rcases (hpush_spec o _ t).2 y hy with hy | rfl
+          · exact hm y (p3 y hy)
+          · exact hr y List.mem_cons_self
+        · exact hm
+      · intro y hy; exact hr y (List.mem_cons_of_mem _ hy)
+  have h0p := hinit_perm o (ts.take k).toArray
+  have h0s : (hinit o (ts.take k).toArray).size = k := by
+    rw [h0p.size_eq]; simp; omega
+  have h0m : ∀ y ∈ hinit o (ts.take k).toArray, y ∈ ts := by
+    intro y hy
+    have := h0p.mem_iff.1 hy
+    exact List.mem_of_mem_take (by simpa using this)
+  obtain ⟨fs, fm⟩ := inv (ts.drop k) _ h0s h0m (fun y hy => List.mem_of_mem_drop hy)
+  refine ⟨by simp [hpopAll_length], ?_⟩
+  intro y hy
+  rw [List.mem_reverse] at hy
+  exact fm y (hpopAll_mem o k _ fs y hy)
+
+/-- the implemented `topK` returns tokens of its input, on both branches -/
+theorem topK_mem (o : Ops α) (k : Int) (ts : List (Tok α)) : ∀ y ∈ topK o k ts, y ∈ ts := by
+  intro y hy
+  unfold topK at hy
+  split at hy
+  · exact (sortDesc_perm o ts).mem_iff.1 hy
+  · rename_i hk
+    have h1 : ¬ (k ≥ (ts.length : Int)) := fun h => hk (Or.inl h)
+    have h2 : ¬ (k ≤ 0) := fun h => hk (Or.inr h)
+    exact (topKHeap_mem o k.toNat ts (by omega) (by omega)).2 y hy
+
+/-! ### minP is the threshold filter; the pick is the first index; no panic -/
+
+/-- on a descending list, cutting at the first entry below the threshold (what `minP` does) keeps
+    exactly the entries that are not below the threshold -/
+theorem takeWhile_eq_filter_of_desc {o : Ops α} (h : OrdLaws o) (th : α) (L : List (Tok α))
+    (hd : L.Pairwise (fun a b => o.lt a.val b.val = false)) :
+    L.takeWhile (fun t => !o.lt t.val th) = L.filter (fun t => !o.lt t.val th) := by
+  induction L with
+  | nil => rfl
+  | cons a L ih =>
+    rw [List.pairwise_cons] at hd
+    simp only [List.takeWhile_cons, List.filter_cons]
+    cases ha : o.lt a.val th with
+    | false => simp only [Bool.not_false, if_true]; rw [ih hd.2]
+    | true =>
+      simp only [Bool.not_true, Bool.false_eq_true, if_false]
+      symm
+      rw [List.filter_eq_nil_iff]
+      intro b hb
+      have hab := hd.1 b hb
+      rcases h.cotrans _ b.val _ ha with h1 | h1
+      · rw [hab] at h1; cases h1
+      · simp [h1]
+
+theorem minP_eq_filter {o : Ops α} (h : OrdLaws o) (p : α) (t0 : Tok α) (rest : List (Tok α))
+    (hd : (t0 :: rest).Pairwise (fun a b => o.lt a.val b.val = false)) :
+    minP o p (t0 :: rest) = .ok ((t0 :: rest).filter (fun t => !o.lt t.val (o.mul t0.val p))) := by
+  simp only [minP]
+  rw [takeWhile_eq_filter_of_desc h _ _ hd]
+
+/-- ascending (adjacent) ⇒ every earlier entry is not above a later one -/
+theorem isAsc_pairwise {o : Ops α} (h : OrdLaws o) : ∀ (vs : List α), isAsc o vs = true →
+    vs.Pairwise (fun a b => o.lt b a = false) := by
+  intro vs
+  induction vs with
+  | nil => intro _; exact List.Pairwise.nil
+  | cons a vs ih =>
+    intro hasc
+    cases vs with
+    | nil => exact List.pairwise_singleton _ _
+    | cons b vs =>
+      simp only [isAsc, Bool.and_eq_true, Bool.not_eq_true'] at hasc
+      have hp := ih hasc.2
+      rw [List.pairwise_cons]
+      refine ⟨?_, hp⟩
+      intro c hc
+      rcases List.mem_cons.1 hc with rfl | hc
+      · exact hasc.1
+      · rw [List.pairwise_cons] at hp
+        exact h.nlt_trans (hp.1 c hc) hasc.1
+
+/-- **the pick is the first index whose cumulative sum reaches the target** when the cumulative
+    sums are ascending (contract `cum`): everything before the returned index is below. -/
+theorem bsearch_first {o : Ops α} (h : OrdLaws o) (C : List (Tok α)) (target : α)
+    (hasc : isAsc o (C.map (·.val)) = true) :
+    let idx := bsearch (belowAt o C target) (C.length + 1) 0 C.length
+    ∀ j, j < idx → belowAt o C target j = true := by
+  intro idx j hj
+  obtain ⟨hle, hlo, _⟩ := bsearch_spec (belowAt o C target) C.length (C.length + 1) 0 C.length
+    (Nat.zero_le _) (Nat.le_refl _) (by omega) (Or.inl rfl) (Or.inl rfl)
+  have hlo : belowAt o C target (idx - 1) = true := by
+    rcases hlo with h0 | hb
+    · exact absurd hj (by show ¬ j < idx; omega)
+    · exact hb
+  have hpw := isAsc_pairwise h _ hasc
+  -- C[idx-1] exists and is below the target
+  unfold belowAt at hlo ⊢
+  cases hq : C[idx - 1]? with
+  | none => rw [hq] at hlo; cases hlo
+  | some q =>
+    rw [hq] at hlo
+    have hjlt : j < C.length := by
+      have := (List.getElem?_eq_some_iff.1 hq).1; omega
+    have hcj : C[j]? = some C[j] := List.getElem?_eq_getElem hjlt
+    rw [hcj]
+    simp only
+    by_cases hjeq : j = idx - 1
+    · subst hjeq; rw [hcj] at hq; injection hq with hq; rw [hq]; exact hlo
+    · have hlt : j < idx - 1 := by omega
+      have hi1 : idx - 1 < C.length := (List.getElem?_eq_some_iff.1 hq).1
+      have hrel : o.lt q.val (C[j]).val = false := by
+        have := List.pairwise_iff_getElem.1 hpw j (idx - 1) (by simpa using hjlt) (by simpa using hi1) hlt
+        have hq' : C[idx - 1] = q := by
+          have := List.getElem?_eq_getElem hi1; rw [this] at hq; injection hq
+        simpa [hq'] using this
+      rcases h.cotrans _ (C[j]).val _ hlo with h1 | h1
+      · rw [hrel] at h1; cases h1
+      · exact h1
+
+/-- **no panic in the pick**: on a non-empty filtered list whose scaled target does not exceed
+    the total (contract `r`), `pick` returns a token or the NaN error — never an index panic -/
+theorem pick_no_panic (o : Ops α) (r : α) (L : List (Tok α)) (hne : L ≠ [])
+    (hr : ∀ last, (cumsum o o.zero L).getLast? = some last →
+        o.lt last.val (o.mul r last.val) = false) :
+    (∃ t, pick o r L = .ok t) ∨ pick o r L = .error .nanSum := by
+  unfold pick
+  simp only
+  cases hl : (cumsum o o.zero L).getLast? with
+  | none =>
+    have : cumsum o o.zero L = [] := List.getLast?_eq_none_iff.1 hl
+    have := congrArg List.length this
+    rw [cumsum_length] at this
+    exact absurd (List.eq_nil_of_length_eq_zero this) hne
+  | some last =>
+    simp only
+    split
+    · exact Or.inr rfl
+    · generalize hC : cumsum o o.zero L = C at *
+      generalize hr' : o.mul r last.val = r' at *
+      obtain ⟨hle, hlo, hhi⟩ := bsearch_spec (belowAt o C r') C.length (C.length + 1) 0 C.length
+        (Nat.zero_le _) (Nat.le_refl _) (by omega) (Or.inl rfl) (Or.inl rfl)
+      generalize bsearch (belowAt o C r') (C.length + 1) 0 C.length = idx at *
+      have hCne : C.length ≠ 0 := by
+        intro h0
+        have : C = [] := List.eq_nil_of_length_eq_zero h0
+        rw [this] at hl; simp at hl
+      have hlast : C[C.length - 1]? = some last := by
+        rw [List.getLast?_eq_getElem?] at hl; exact hl
+      have hidx : idx < C.length := by
+        rcases Nat.lt_or_ge idx C.length with h1 | h1
+        · exact h1
+        · have hie : idx = C.length := by omega
+          rcases hlo with h0 | hb
+          · omega
+          · rw [hie] at hb
+            simp only [belowAt, hlast] at hb
+            have := hr last hl
+            rw [hr'] at this
+            rw [this] at hb; cases hb
+      left
+      rw [List.getElem?_eq_getElem hidx]
+      exact ⟨_, rfl⟩
+
+theorem setVals_length (L : List (Tok α)) (vs : List α) (hl : vs.length = L.length) :
+    (setVals L vs).length = L.length := by
+  simp [setVals, hl]
+
+theorem softmaxVals_length (o : Ops α) (vs : List α) : (softmaxVals o vs).length = vs.length := by
+  simp [softmaxVals]
+
+theorem probsOf_length (o : Ops α) (P : Params α) (L : List (Tok α)) :
+    (probsOf o P L).length = L.length := by
+  unfold probsOf softmax
+  have h1 : (temperature o P.temp L).length = L.length := by
+    unfold temperature; exact setVals_length _ _ (by simp [scaleVals_length])
+  rw [setVals_length _ _ (by rw [softmaxVals_length]; simp), h1]
+
+/-- **no panic after topK** (pinned variant): on a non-empty list, if the run's two arithmetic
+    contracts hold (`max·minP ≤ max`, flag `empty`; `r·total ≤ total`, flag `r`), `sample` returns a
+    token or the NaN error — none of the three index expressions can panic. -/
+theorem afterTopK_no_panic (o : Ops α) (P : Params α) (r : α) (L : List (Tok α)) (hL : L ≠ [])
+    (hmin : ∀ t0 rest, topP o P.topP (probsOf o P L) = t0 :: rest →
+        o.lt t0.val (o.mul t0.val P.minP) = false)
+    (hr : ∀ f last, minP o P.minP (topP o P.topP (probsOf o P L)) = .ok f →
+        (cumsum o o.zero f).getLast? = some last → o.lt last.val (o.mul r last.val) = false) :
+    (∃ t, afterTopK o false P r L = .ok t) ∨ afterTopK o false P r L = .error .nanSum := by
+  have hpne : probsOf o P L ≠ [] := by
+    intro h0
+    have := congrArg List.length h0
+    rw [probsOf_length] at this
+    exact hL (List.eq_nil_of_length_eq_zero this)
+  have htne := topP_ne_nil o P.topP _ hpne
+  cases htp : topP o P.topP (probsOf o P L) with
+  | nil => exact absurd htp htne
+  | cons t0 rest =>
+    obtain ⟨f, hf⟩ := minP_ne_nil o P.minP t0 rest (hmin t0 rest htp)
+    have hpick := pick_no_panic o r (t0 :: f) (by simp)
+      (fun last hl => hr (t0 :: f) last (by rw [htp]; exact hf) hl)
+    have hunf : afterTopK o false P r L = pick o r (t0 :: f) := by
+      unfold afterTopK
+      simp only [Bool.false_eq_true, if_false, bind, Except.bind, pure, Except.pure]
+      have e : softmax o (temperature o P.temp L) = probsOf o P L := rfl
+      rw [e, htp, hf]
+    rw [hunf]; exact hpick
+
 end OllamaVerif.Sampler
